@@ -1,1 +1,253 @@
-/-! C12 — property theorems (stub; no obligations yet) -/
+import Ypv.Lemmas.Compare
+/-!
+# C12 — search operators compare values by the documented typed rules
+
+The model is `searchMatches` (`Model/Compare.lean`, a branch-for-branch mirror of
+`Searches.search_matches` after `fixes/C12-1.patch`); the specification is `Spec.matches`, written
+from the property statement.  Regular expressions are an oracle parameter `rx` of both.
+
+* `matches_eq_spec` — for every operator, every scalar value and every term the model answers
+  exactly what the specification demands (an answer on one side iff on the other).
+* `matches_total` — for a well-formed term (`WellFormed`: both sides inside the modelled literal
+  classes, and for `=~` the pattern compiles) the comparison returns a Boolean; and whatever the
+  input, the only crash outcome the model can reach is `re.error` for an invalid pattern
+  (`matches_crash_only_invalid_regex`).
+* `inverted_is_complement` — at the segment, over any sequence of scalar candidates, the plain
+  search yields exactly the positions whose candidate matches and the inverted search exactly the
+  others, both in document order (`plain_is_filter`, `inverted_is_complement`,
+  `inverted_list_site`).
+-/
+namespace Ypv.C12
+open Ypv
+
+/-- The Boolean answer of an outcome, if it is one. -/
+def answer : Except Err Bool → Option Bool
+  | .ok b => some b
+  | .error _ => none
+
+theorem ladder_eq_spec (m : Method) (ok : Ordering → Bool) (txt : Str → Str → Bool)
+    (h1 : ∀ o, ok o = Spec.accepts m o) (h2 : ∀ a b, txt a b = Spec.accepts m (Spec.textCmp a b))
+    (th tn : Typed) (hay t : Str) :
+    orderLadder ok txt th tn hay t =
+      (match th.ordNum?, tn.ordNum? with
+       | some (m1, e1), some (m2, e2) => Spec.accepts m (decCmp m1 e1 m2 e2)
+       | some _, none => false
+       | none, _ => Spec.accepts m (Spec.textCmp hay t)) := by
+  cases th <;> cases tn <;> simp [orderLadder, Typed.ordNum?, h1, h2]
+
+theorem accepts_gt (o : Ordering) : (o == .gt) = Spec.accepts .gt o := by cases o <;> rfl
+theorem accepts_lt (o : Ordering) : (o == .lt) = Spec.accepts .lt o := by cases o <;> rfl
+theorem accepts_ge (o : Ordering) : (o != .lt) = Spec.accepts .ge o := by cases o <;> rfl
+theorem accepts_le (o : Ordering) : (o != .gt) = Spec.accepts .le o := by cases o <;> rfl
+
+theorem txt_gt (a b : Str) : strLt b a = Spec.accepts .gt (Spec.textCmp a b) := by
+  rw [textCmp_gt, accepts_gt]
+theorem txt_lt (a b : Str) : strLt a b = Spec.accepts .lt (Spec.textCmp a b) := by
+  rw [textCmp_lt, accepts_lt]
+theorem txt_ge (a b : Str) : strLe b a = Spec.accepts .ge (Spec.textCmp a b) := by
+  rw [textCmp_ge, accepts_ge]
+theorem txt_le (a b : Str) : strLe a b = Spec.accepts .le (Spec.textCmp a b) := by
+  rw [textCmp_le, accepts_le]
+
+theorem beq_dec {α : Type} [BEq α] [LawfulBEq α] [DecidableEq α] (a b : α) : (a == b) = decide (a = b) := by
+  by_cases h : a = b
+  · subst h; simp
+  · simp [h]
+
+/-- **C12 (a)**.  The model of `search_matches` equals the specification: for every operator,
+value and term, either both give the same Boolean or neither gives one. -/
+theorem matches_eq_spec (rx : Str → Str → Option Bool) (m : Method) (value : Scalar) (term : Str) :
+    answer (searchMatches rx m value term) = Spec.matches rx m value term := by
+  unfold searchMatches searchTyped Spec.matches
+  simp only []
+  generalize typedOfScalar value = th
+  generalize typedValue term = tn
+  generalize pyStr value = hay
+  by_cases hu : (th = Typed.unmodelled || tn = Typed.unmodelled) = true
+  · simp [hu, answer]
+  · simp only [hu, if_false, Bool.false_eq_true]
+    cases m
+    case equals =>
+      simp only [Spec.isOrdering, Bool.false_eq_true, if_false]
+      cases th <;> cases tn <;> simp [answer, beq_dec]
+    case contains => simp [Spec.isOrdering, answer, pyContains_eq_spec]
+    case endsWith => simp [Spec.isOrdering, answer, pyEndsWith_eq_spec]
+    case startsWith => simp [Spec.isOrdering, answer, pyStartsWith_eq_spec]
+    case regex =>
+      simp only [Spec.isOrdering, Bool.false_eq_true, if_false]
+      cases rx term hay <;> simp [answer]
+    case gt =>
+      simp only [Spec.isOrdering, if_true, answer]
+      rw [ladder_eq_spec .gt _ _ accepts_gt txt_gt]
+      cases th.ordNum? <;> cases tn.ordNum? <;> rfl
+    case lt =>
+      simp only [Spec.isOrdering, if_true, answer]
+      rw [ladder_eq_spec .lt _ _ accepts_lt txt_lt]
+      cases th.ordNum? <;> cases tn.ordNum? <;> rfl
+    case ge =>
+      simp only [Spec.isOrdering, if_true, answer]
+      rw [ladder_eq_spec .ge _ _ accepts_ge txt_ge]
+      cases th.ordNum? <;> cases tn.ordNum? <;> rfl
+    case le =>
+      simp only [Spec.isOrdering, if_true, answer]
+      rw [ladder_eq_spec .le _ _ accepts_le txt_le]
+      cases th.ordNum? <;> cases tn.ordNum? <;> rfl
+
+/-- A term is well-formed for a value and an operator: both sides lie inside the modelled literal
+classes and, for `=~`, the pattern compiles (the oracle has an answer). -/
+def WellFormed (rx : Str → Str → Option Bool) (m : Method) (value : Scalar) (term : Str) : Bool :=
+  typedOfScalar value != .unmodelled && typedValue term != .unmodelled &&
+    (m != .regex || (rx term (pyStr value)).isSome)
+
+/-- **C12 (b)**.  For a well-formed term the comparison returns a Boolean: never an error. -/
+theorem matches_total (rx : Str → Str → Option Bool) (m : Method) (value : Scalar) (term : Str)
+    (h : WellFormed rx m value term = true) : ∃ b, searchMatches rx m value term = .ok b := by
+  unfold WellFormed at h
+  simp only [Bool.and_eq_true, bne_iff_ne, ne_eq, Bool.or_eq_true] at h
+  obtain ⟨⟨h1, h2⟩, h3⟩ := h
+  unfold searchMatches searchTyped
+  have hu : (typedOfScalar value = Typed.unmodelled || typedValue term = Typed.unmodelled) = false := by
+    simp [h1, h2]
+  simp only [hu, Bool.false_eq_true, if_false]
+  cases m
+  case regex =>
+    have : (rx term (pyStr value)).isSome = true := by
+      rcases h3 with h3 | h3
+      · exact absurd rfl h3
+      · exact h3
+    cases hr : rx term (pyStr value) with
+    | none => rw [hr] at this; cases this
+    | some b => exact ⟨b, rfl⟩
+  case equals =>
+    cases typedOfScalar value <;> cases typedValue term <;> exact ⟨_, rfl⟩
+  all_goals exact ⟨_, rfl⟩
+
+/-- Whatever the input, the only crash the comparison can end in is `re.error`, and only for the
+regex operator with a pattern that does not compile. -/
+theorem matches_crash_only_invalid_regex (rx : Str → Str → Option Bool) (m : Method) (value : Scalar)
+    (term : Str) (k : CrashKind) (h : searchMatches rx m value term = .error (.crash k)) :
+    k = .reError ∧ m = .regex ∧ rx term (pyStr value) = none := by
+  unfold searchMatches searchTyped at h
+  split at h
+  · cases h
+  · cases m
+    case regex =>
+      cases hr : rx term (pyStr value) with
+      | none => rw [hr] at h; cases h; exact ⟨rfl, rfl, rfl⟩
+      | some b => rw [hr] at h; cases h
+    case equals =>
+      revert h
+      cases typedOfScalar value <;> cases typedValue term <;> intro h <;> cases h
+    all_goals cases h
+
+/-! ## Inversion at the segment -/
+
+/-- "The candidate matches". -/
+def hit (rx : Str → Str → Option Bool) (m : Method) (term : Str) (c : Scalar) : Bool :=
+  searchMatches rx m c term == .ok true
+
+/-- The positions `i, i+1, …` of the candidates that satisfy `p`. -/
+def positions (p : Scalar → Bool) : List Scalar → Nat → List Nat
+  | [], _ => []
+  | c :: cs, i => if p c then i :: positions p cs (i + 1) else positions p cs (i + 1)
+
+theorem scan_eq (rx : Str → Str → Option Bool) (inv : Bool) (m : Method) (term : Str) :
+    ∀ (cs : List Scalar) (i : Nat), (∀ c ∈ cs, WellFormed rx m c term = true) →
+      searchScan rx inv m term cs i = (positions (fun c => hit rx m term c != inv) cs i, none)
+  | [], _, _ => rfl
+  | c :: cs, i, h => by
+    obtain ⟨b, hb⟩ := matches_total rx m c term (h c (by simp))
+    have ih := scan_eq rx inv m term cs (i + 1) (fun c' hc' => h c' (by simp [hc']))
+    unfold searchScan positions
+    rw [hb, ih]
+    simp only [hit, hb]
+    cases b <;> cases inv <;> simp [yieldIf]
+
+/-- **C12 (c₁)**.  The plain search over a sequence of candidates with a well-formed term
+yields exactly the positions of the matching candidates, in order, and ends normally. -/
+theorem plain_is_filter (rx : Str → Str → Option Bool) (m : Method) (term : Str) (cs : List Scalar)
+    (h : ∀ c ∈ cs, WellFormed rx m c term = true) :
+    searchScan rx false m term cs 0 = (positions (fun c => hit rx m term c) cs 0, none) := by
+  rw [scan_eq rx false m term cs 0 h]
+  congr 2; funext c; cases hit rx m term c <;> rfl
+
+/-- **C12 (c₂)**.  The inverted search yields exactly the positions of the candidates the plain
+search does not yield (`¬ matches`), in order. -/
+theorem inverted_is_complement (rx : Str → Str → Option Bool) (m : Method) (term : Str) (cs : List Scalar)
+    (h : ∀ c ∈ cs, WellFormed rx m c term = true) :
+    searchScan rx true m term cs 0 = (positions (fun c => !hit rx m term c) cs 0, none) := by
+  rw [scan_eq rx true m term cs 0 h]
+  congr 2; funext c; cases hit rx m term c <;> rfl
+
+/-- Positions are a partition: every position is yielded by exactly one of the two searches. -/
+theorem positions_partition (p : Scalar → Bool) : ∀ (cs : List Scalar) (i j : Nat),
+    i ≤ j → j < i + cs.length →
+      ((j ∈ positions p cs i ∧ j ∉ positions (fun c => !p c) cs i) ∨
+       (j ∉ positions p cs i ∧ j ∈ positions (fun c => !p c) cs i))
+  | [], i, j, h1, h2 => by simp at h2; omega
+  | c :: cs, i, j, h1, h2 => by
+    have lower : ∀ (q : Scalar → Bool) (cs : List Scalar) (k : Nat), ∀ x ∈ positions q cs k, k ≤ x := by
+      intro q cs
+      induction cs with
+      | nil => intro k x hx; simp [positions] at hx
+      | cons d ds ih =>
+        intro k x hx
+        unfold positions at hx
+        split at hx
+        · rcases List.mem_cons.mp hx with e | e
+          · omega
+          · have := ih (k + 1) x e; omega
+        · have := ih (k + 1) x hx; omega
+    by_cases e : j = i
+    · subst e
+      have n1 : j ∉ positions p cs (j + 1) := fun hx => by have := lower p cs (j + 1) j hx; omega
+      have n2 : j ∉ positions (fun c => !p c) cs (j + 1) := fun hx => by
+        have := lower (fun c => !p c) cs (j + 1) j hx; omega
+      unfold positions
+      cases hp : p c <;> simp [n1, n2]
+    · have ih := positions_partition p cs (i + 1) j (by omega) (by simp at h2; omega)
+      unfold positions
+      cases hp : p c <;> simp [e, ih]
+
+/-- The list site (`[.<op>term]` over a list): unless the list consists of nulls only (where the
+code raises on `term in None`, a matter of C15), it is the same scan. -/
+theorem inverted_list_site (rx : Str → Str → Option Bool) (inv : Bool) (m : Method) (term : Str)
+    (cs : List Scalar) (hn : (!cs.isEmpty && cs.all (· = .null)) = false)
+    (h : ∀ c ∈ cs, WellFormed rx m c term = true) :
+    searchListSite rx inv m term cs = (positions (fun c => hit rx m term c != inv) cs 0, none) := by
+  unfold searchListSite
+  simp only [hn, Bool.false_eq_true, if_false]
+  exact scan_eq rx inv m term cs 0 h
+
+/-! ## Witnesses: the hypotheses are met, and the typed rules are the intended ones -/
+
+def noRegex : Str → Str → Option Bool := fun _ _ => none
+
+example : searchMatches noRegex .equals (.int 5) "5".toList = .ok true := by decide +kernel
+example : searchMatches noRegex .equals (.int 5) "5.0".toList = .ok false := by decide +kernel
+example : searchMatches noRegex .equals (.float 5 0) "5.0".toList = .ok true := by decide +kernel
+example : searchMatches noRegex .equals (.float 15 (-1)) "1.50".toList = .ok true := by decide +kernel
+example : searchMatches noRegex .equals (.bool true) "tRuE".toList = .ok true := by decide +kernel
+/-- a Boolean does not equal a number (the pinned code answered `true`: `fixes/C12-1.patch`) -/
+example : searchMatches noRegex .equals (.bool true) "1".toList = .ok false := by decide +kernel
+example : searchMatches noRegex .gt (.int 10) "9".toList = .ok true := by decide +kernel
+example : searchMatches noRegex .gt (.str "10".toList) "9".toList = .ok true := by decide +kernel
+example : searchMatches noRegex .gt (.str "b".toList) "ab".toList = .ok true := by decide +kernel
+example : searchMatches noRegex .gt (.int 10) "abc".toList = .ok false := by decide +kernel
+example : searchMatches noRegex .le (.float 25 (-1)) "3".toList = .ok true := by decide +kernel
+/-- the text tests act on the value's own text (the pinned code answered `false`) -/
+example : searchMatches noRegex .startsWith (.str "1.50".toList) "1.50".toList = .ok true := by decide +kernel
+example : searchMatches noRegex .endsWith (.float 15 (-1)) ".5".toList = .ok true := by decide +kernel
+example : searchMatches noRegex .contains .null "on".toList = .ok true := by decide +kernel
+example : searchMatches noRegex .regex (.int 5) "*".toList = .error (.crash .reError) := by decide +kernel
+example : WellFormed noRegex .equals (.str "abc".toList) "1e5".toList = true := by decide +kernel
+example : WellFormed noRegex .regex (.int 5) "*".toList = false := by decide +kernel
+example : searchScan noRegex true .gt "4".toList [.int 5, .int 3, .str "x".toList, .float 45 (-1)] 0
+    = ([1], none) := by decide +kernel
+example : searchScan noRegex false .gt "4".toList [.int 5, .int 3, .str "x".toList, .float 45 (-1)] 0
+    = ([0, 2, 3], none) := by decide +kernel
+example : pyStr (.float 1 16) = "1e+16".toList := by decide +kernel
+example : pyStr (.float 15 (-6)) = "1.5e-05".toList := by decide +kernel
+example : typedValue "1_0.50e1".toList = .float 105 0 := by decide +kernel
+
+end Ypv.C12
